@@ -103,18 +103,19 @@ func (s *slowSink) snapshot() []byte {
 // ---------------------------------------------------------------- case
 
 type params struct {
-	G        int
-	PerG     int
-	Layout   string // TextLayout | JSONLayout
-	Path     string // builtin | logger+console | logger+layout+console | consolelogger | logger+file | filelogger | logger+rolling | logger+layout+file
-	BufCap   string
-	Sizes    []int
-	Chunk    int
-	PauseUS  int
-	Yield    bool
+	G       int
+	PerG    int
+	Layout  string // TextLayout | JSONLayout
+	Path    string // builtin | logger+console | logger+layout+console | consolelogger | logger+file | filelogger | logger+rolling | logger+layout+file
+	BufCap  string
+	Sizes   []int
+	Chunk   int
+	PauseUS int
+	Yield   bool
 	// CtxFields: the FieldsFromContext hook hands every event the same request-scoped slice, which
 	// has spare capacity (built with append, as such slices are); CtxString likewise a shared string
 	CtxFields bool
+	Fast      bool // fastCaller=true: every line's file:line comes out of the shared call-site cache, cold when the goroutines start
 }
 
 func (p params) key() string { return fmt.Sprintf("%+v", p) }
@@ -151,11 +152,12 @@ func genParams(t *rapid.T) params {
 	}
 	p.Yield = rapid.Bool().Draw(t, "yield")
 	p.CtxFields = rapid.Bool().Draw(t, "ctxFields")
+	p.Fast = rapid.Bool().Draw(t, "fastCaller")
 	return p
 }
 
 func (p params) config(dir string) map[string]string {
-	m := map[string]string{"enableCaller": "true", "fastCaller": "false", "bufferCap": p.BufCap}
+	m := map[string]string{"enableCaller": "true", "fastCaller": fmt.Sprint(p.Fast), "bufferCap": p.BufCap}
 	lg := "logger.t."
 	m[lg+"tags"] = "_c03_t"
 	switch p.Path {
